@@ -158,4 +158,21 @@ __CPROVER_assigns(*self)
 /* [INV,C20:init-live]      */ __CPROVER_ensures(inv_live(self) && ST(self) == CAT_STATE_IDLE)
 ;
 
+/* lookup helpers of the public API: memory safety for every descriptor of the shape, result inside the table */
+struct cat_command const* cat_search_command_by_name(struct cat_object *self, const char *name)
+__CPROVER_requires(API_INV(self))
+__CPROVER_assigns()
+/* [C03:search-cmd-result]  */ __CPROVER_ensures(RET == NULL || p_cmd_in_table(RET))
+;
+struct cat_command_group const* cat_search_command_group_by_name(struct cat_object *self, const char *name)
+__CPROVER_requires(API_INV(self))
+__CPROVER_assigns()
+/* [C03:search-grp-result]  */ __CPROVER_ensures(RET == NULL || RET == &h_grp[0] || RET == &h_grp[1])
+;
+struct cat_variable const* cat_search_variable_by_name(struct cat_object *self, struct cat_command const *cmd, const char *name)
+__CPROVER_requires(API_INV(self) && p_cmd_in_pool(cmd) && (cmd->var != NULL || cmd->var_num == 0))
+__CPROVER_assigns()
+/* [C03:search-var-result]  */ __CPROVER_ensures(RET == NULL || (RET >= &cmd->var[0] && RET < &cmd->var[cmd->var_num]))
+;
+
 #endif
